@@ -27,6 +27,9 @@ def env_clean():
     e["CARGO_NET_OFFLINE"] = "true"
     e["CARGO_TARGET_DIR"] = TARGET
     e.pop("BINDGEN_VERIF_LOG", None)
+    e["BGMODEL"] = os.path.join(LEAN, ".lake", "build", "bin", "bgmodel")
+    e["BINDGEN_CLI"] = os.path.join(TARGET, "debug", "bindgen")
+    e["VERIF_DIR"] = VERIF
     return e
 
 
@@ -209,6 +212,26 @@ def cargo_build_harness(bins=None, timeout=3600):
 
 def harness_bin(name):
     return os.path.join(TARGET, "verif", name)
+
+
+def run_harness(name, res, workdir, extra_args=(), extra_env=None, timeout=7200):
+    """Run harness binary `name` with the standard arguments; it must write
+    <workdir>/report.json.  Returns (rc, stdout+stderr, report dict or None)."""
+    import json as _json
+    e = env_clean()
+    e["RUSTFLAGS"] = HOOK_RUSTFLAGS
+    if extra_env:
+        e.update(extra_env)
+    rc, out = sh([harness_bin(name), "--tier", res.tier, "--seed", str(res.seed), "--out", workdir] + list(extra_args),
+                 env=e, timeout=timeout)
+    rep = None
+    rp = os.path.join(workdir, "report.json")
+    if os.path.exists(rp):
+        try:
+            rep = _json.load(open(rp))
+        except Exception as ex:  # noqa
+            out += "\nreport.json unreadable: %r" % (ex,)
+    return rc, out, rep
 
 
 def cargo_build_cli(timeout=3600):
